@@ -180,6 +180,23 @@ class CFG:
         fn = self.fn
         t = fn.n(b["term"])
         c = b["cond"]
+        # the value branched on is the last expression evaluated in the block, when it belongs to the condition
+        # (clang merges `a && b` into one block when temporaries have to be destroyed after the full expression)
+        last = None
+        for e in reversed(b["elems"]):
+            if isinstance(e, int):
+                last = e
+                break
+        if last is not None and t["k"] not in ("CXXForRangeStmt",):
+            sub = set(fn.subtree(c))
+            if last in sub:
+                x = last
+                pm = fn.parent_map()
+                # climb through wrappers / implicit casts that are not separate CFG elements
+                while x in pm and pm[x] in sub and fn.n(pm[x])["k"] in ("ImplicitCastExpr", "ParenExpr", "ExprWithCleanups",
+                                                                          "MaterializeTemporaryExpr", "CXXBindTemporaryExpr"):
+                    x = pm[x]
+                return x
         if t["k"] == "BinaryOperator" and t.get("op") in ("&&", "||"):
             return c   # clang gives the LHS
         # for statement terminators the last evaluated operand of a logical chain decides
